@@ -90,3 +90,36 @@ def register(reg):
                  ('state-moved-back', 'self.state.height == flush_data.state.height and self.state.tx_count == flush_data.state.tx_count'),
                  ('pointers', 'self.fs_height == flush_data.state.height and self.fs_tx_count == flush_data.state.tx_count')],
         props=['C05', 'C03'])
+
+    # ---- DB.flush_fs: the meta files are append-only and written BEFORE the pointers move (C04, C02) -----------------------------
+    # establishes the file half of A-INV-FILES for the new height: headers and tx hashes of every block up to
+    # flush_data.state.height are in the files, everything below the old pointers is untouched
+    H80 = 'forall(lambda j=Int: implies(0 <= j and j < len(flush_data.headers), len(flush_data.headers[j]) == 80))'
+    reg.contract(
+        DBK + '.flush_fs', params={'flush_data': Obj(FD)},
+        requires=[('pointers', 'self.fs_height >= -1 and len(self.tx_counts) == flush_data.state.height + 1 and '
+                               'flush_data.state.height == self.fs_height + len(flush_data.headers) and '
+                               'len(flush_data.block_tx_hashes) == len(flush_data.headers)'),
+                  ('counts', 'forall(lambda i=Int: implies(0 <= i and i < len(self.tx_counts), self.tx_counts[i] >= 0)) and '
+                             'flush_data.state.tx_count == ite(len(self.tx_counts) > 0, self.tx_counts[len(self.tx_counts) - 1], 0)'),
+                  ('headers-are-80-bytes', H80),
+                  ('hashes-match-counts', 'len(bjoin(flush_data.block_tx_hashes)) == 32 * (flush_data.state.tx_count - '
+                                          'ite(self.fs_height >= 0, self.tx_counts[self.fs_height], 0))'),
+                  ('header-bytes', 'len(bjoin(flush_data.headers)) == 80 * len(flush_data.headers)'),
+                  ('files-cover-the-old-pointers', 'len(self.headers_file.g_data) >= 80 * (self.fs_height + 1) and '
+                                                   'len(self.hashes_file.g_data) >= 32 * ite(self.fs_height >= 0, self.tx_counts[self.fs_height], 0)')],
+        raises={}, assumes_inv=False, maintains_inv=False,
+        modifies=['self.headers_file.g_data', 'self.tx_counts_file.g_data', 'self.hashes_file.g_data', 'self.fs_height', 'self.fs_tx_count',
+                  'flush_data.headers', 'flush_data.block_tx_hashes'],
+        ensures=[('pointers-moved', 'self.fs_height == flush_data.state.height and self.fs_tx_count == flush_data.state.tx_count'),
+                 ('headers-appended-at-the-old-pointer',
+                  'self.headers_file.g_data[0:80 * (old(self.fs_height) + 1)] == old(self.headers_file.g_data)[0:80 * (old(self.fs_height) + 1)] and '
+                  'self.headers_file.g_data[80 * (old(self.fs_height) + 1):80 * (old(self.fs_height) + 1) + 80 * len(old(flush_data.headers))] == bjoin(old(flush_data.headers))'),
+                 ('hashes-appended-at-the-old-count',
+                  'let(lambda p=ite(old(self.fs_height) >= 0, self.tx_counts[old(self.fs_height)], 0): '
+                  'self.hashes_file.g_data[0:32 * p] == old(self.hashes_file.g_data)[0:32 * p] and '
+                  'self.hashes_file.g_data[32 * p:32 * p + len(bjoin(old(flush_data.block_tx_hashes)))] == bjoin(old(flush_data.block_tx_hashes)))'),
+                 ('utxo-and-history-databases-untouched', 'self.utxo_db.g_commits == old(self.utxo_db.g_commits) and '
+                                                          'self.history.db.g_commits == old(self.history.db.g_commits)'),
+                 ('handed-over', 'len(flush_data.headers) == 0 and len(flush_data.block_tx_hashes) == 0')],
+        portfolio=True, props=['C04', 'C02'])
